@@ -95,8 +95,11 @@ def entry_nodes(kind, path='/v/d/x'):
 HOMES = ['/h', '/h(1', '/h[x', '/h+y' + chr(92), '/h $0*']  # $HOME is data, never a pattern
 
 
-def make_world(kind, top, alt, pre, home=0):
-    name = LONG if PRE[pre].startswith('long-name') else (TINAME if PRE[pre].startswith('dot-trashinfo-name') else 'x')
+NAMES2 = ['x', '100%.txt', 'a%sb', '%(x)s %d', "q'uo\"te", 'new\nline', '{0}{}']  # names are data, never format strings
+
+
+def make_world(kind, top, alt, pre, home=0, nm=0):
+    name = LONG if PRE[pre].startswith('long-name') else (TINAME if PRE[pre].startswith('dot-trashinfo-name') else NAMES2[nm])
     nodes = [W.d('/h'), W.d(HOMES[home]), W.d('/v/d'), W.d('/v/d/sub'), W.f('/v/d/sub/keep', 'K', 0o644, 900),
              W.l('/v/lp', '/v/d', 901), W.f('/v/n/inner', 'INNER', 0o644, 902), W.d('/v/n/nd'),
              W.f('/v/n/nd/deep', 'DEEP', 0o644, 903),
@@ -145,14 +148,18 @@ def make_world(kind, top, alt, pre, home=0):
     return W.W(mounts=['/', '/v', '/v/n'], cwd='/v/d', nodes=nodes)
 
 
-def scenario(kind, sp, mode, td, fb, top, alt, pre, verbose, home=0):
-    world = make_world(kind, top, alt, pre, home)
+def scenario(kind, sp, mode, td, fb, top, alt, pre, verbose, home=0, nm=0):
+    world = make_world(kind, top, alt, pre, home, nm)
     arg, target, family = SPELLINGS[sp]
     if (PRE[pre].startswith('long-name') or PRE[pre].startswith('dot-trashinfo-name')) and family == 'entry':
         nm = LONG if PRE[pre].startswith('long-name') else TINAME
         cut = len(arg.rstrip('/'))
         arg = arg[:cut - 1] + nm + arg[cut:]
         target = target[:-1] + nm
+    elif nm and family == 'entry':
+        cut = len(arg.rstrip('/'))
+        arg = arg[:cut - 1] + NAMES2[nm] + arg[cut:]
+        target = target[:-1] + NAMES2[nm]
     opts, stdin = MODES[mode]
     args = list(opts)
     if TRASHDIR_OPT[td]:
@@ -239,9 +246,9 @@ def oracle(results, arg, target, family, label):
                        arg, res['exit'], res['exc'], sorted(removed)[:6], sorted(added)[:8], res['err'][-300:]))
 
 
-def _case(kind, sp, mode, td, fb, top, alt, pre, verbose, home=0):
+def _case(kind, sp, mode, td, fb, top, alt, pre, verbose, home=0, nm=0):
     with rt.untraced():
-        world, steps, arg, target, family = scenario(kind, sp, mode, td, fb, top, alt, pre, verbose, home)
+        world, steps, arg, target, family = scenario(kind, sp, mode, td, fb, top, alt, pre, verbose, home, nm)
         rt.begin((KINDS[kind], arg, MODES[mode], TRASHDIR_OPT[td], FALLBACK[fb], TOP_STATES[top], ALT_STATES[alt], PRE[pre], verbose, HOMES[home]))
         m, results = scen.run_model(world, steps)
         label = '%s:%s' % (KINDS[kind], arg if len(arg) < 30 else arg[:6] + '..(%d bytes)' % len(arg)) + (':HOME=%s' % HOMES[home] if home else '')
@@ -264,6 +271,15 @@ def w_dirs(kind: int, top: int, alt: int, pre: int, sp: int) -> str:
     post: _ == ''
     """
     return _case(rt.sel(kind, 6), rt.of([0, 4, 6], sp), 0, 0, 0, rt.sel(top, 6), rt.sel(alt, 3), rt.sel(pre, 9), 0)
+
+
+def w_names(kind: int, nm: int, verbose: int, td: int, sp: int) -> str:
+    """
+    pre: PARTITION is None or kind == PARTITION
+    pre: 0 <= kind < 6 and 1 <= nm <= 6 and 0 <= verbose < 3 and 0 <= td < 3 and 0 <= sp < 3
+    post: _ == ''
+    """
+    return _case(rt.sel(kind, 6), rt.of([0, 2, 6], sp), 0, rt.sel(td, 3), 0, 5, 0, 0, rt.sel(verbose, 3), 0, rt.sel(nm, 7))
 
 
 def w_home(kind: int, hv: int, td: int, fb: int, verbose: int) -> str:
@@ -325,6 +341,8 @@ def obligations(tier):
         CH('W_options', MOD, 'w_opts', timeout=900, partitions=list(range(6)), engine='W', regime='selector',
            encodes=PUT_FUNCS, stubs=STUBS, bounds='6 kinds x 3 --trash-dir x 4 fallback x 3 .Trash-uid x 3 -v x 3 spellings'),
     ]
+    obs.append(CH('W_names_with_format_characters', MOD, 'w_names', timeout=600, partitions=list(range(6)), engine='W', regime='selector', encodes=PUT_FUNCS, stubs=STUBS,
+                  bounds='6 kinds x 6 names containing % ( ) { } quotes newline x -v count 0..2 x 3 --trash-dir x 3 spellings'))
     obs.append(CH('W_home_directory_names', MOD, 'w_home', timeout=600, partitions=list(range(6)), engine='W', regime='selector', encodes=PUT_FUNCS, stubs=STUBS,
                   bounds='6 kinds x 4 $HOME values containing ( [ + backslash space $ * x 3 --trash-dir x 4 fallback switches x -v or not'))
     if tier == 'thorough':
